@@ -14,7 +14,8 @@ ABBRS = ['HTML', 'W3C', 'foo', 'Zz']
 WORDS = C.WORDS + ['HTML', 'W3C', 'Title', 'café', '日本', 'naïve']
 URLS = ['/u', 'http://x.y/z?a=1&b=2', '<v w>', '/p_(q)', '#frag', 'u.png']
 TITLES = ['', '', ' "T"', " 'z'", ' (p)', ' "a *b* c"']
-HEADS = ['Title', 'Sub', 'Title', 'a b', 'café', '*em* `c`', 'x & y', 'A_1', '日本', '[l](/u)', 'Sub-sub', '']
+# titles of which the default slugify leaves nothing (non-Latin script, punctuation only) get positional ids (_1, _2, ...)
+HEADS = ['Title', 'Sub', 'Title', 'a b', 'café', '*em* `c`', 'x & y', 'A_1', '日本', '[l](/u)', 'Sub-sub', '', 'Заключение !', '概要', '!!!', '日本']
 
 
 def words(rng, lo=1, hi=4):
@@ -67,7 +68,10 @@ def p_footnote_use(rng):
 
 
 def p_abbr(rng):
-    return '*[%s]: %s' % (rng.choice(ABBRS), rng.choice(['Hyper Text', 'World Wide', 'x "y" & z', '']))
+    a = rng.choice(ABBRS)
+    s = '*[%s]: %s' % (a, rng.choice(['Hyper Text', 'World Wide', 'x "y" & z', '', "''"]))
+    if rng.random() < 0.5: s += '\n\n' + words(rng, 0, 2) + ' ' + rng.choice([a, a, rng.choice(ABBRS)]) + ' ' + words(rng, 0, 1)     # ... and a use
+    return s
 
 
 def p_heading(rng):
@@ -90,7 +94,9 @@ def p_meta(rng):
 
 def p_fence(rng):
     f = rng.choice(['```', '~~~', '````'])
-    lang = rng.choice(['', 'py', 'python', ' { .js #f1 }', '{.c hl_lines="1 2"}', ' html', '{ .x use_pygments=false }'])
+    # brace lists WITHOUT key=value options but with extra classes ({ .python .special }) take another path through fenced_code than
+    # those with options: the classes are merged into the highlighter configuration of that one block
+    lang = rng.choice(['', 'py', 'python', ' { .js #f1 }', '{.c hl_lines="1 2"}', ' html', '{ .x use_pygments=false }', '{ .python .special }', ' {.py .a .b #f2}', 'python'])
     body = '\n'.join(rng.choice(['x = 1', '<b>&amp;</b>', '*not em*', '', '    ind', '[a]: /leak', '# no h', 'HTML']) for _ in range(rng.randint(1, 4)))
     return '%s%s\n%s\n%s' % (f, lang, body, f)
 
@@ -213,6 +219,27 @@ PIECES = [(p_para, 5), (p_refdef, 4), (p_footnote_def, 2), (p_footnote_use, 2), 
 _PIECE_POOL = [f for f, w in PIECES for _ in range(w)]
 
 
+def focus_pieces(exts):
+    """piece generators whose rendering goes through per-instance state of the extensions loaded (for histories that repeat ONE
+    kind of construct in every document: a state that survives from one document to the next then meets the construct again)"""
+    exts = set(exts)
+    if 'extra' in exts: exts |= {'fenced_code', 'footnotes', 'attr_list', 'def_list', 'tables', 'abbr', 'md_in_html'}
+    out = [p_refdef, p_heading]
+    if exts & {'fenced_code', 'codehilite'}: out += [p_fence, p_fence]
+    if 'codehilite' in exts and 'fenced_code' in exts: out += [p_fence, p_fence, p_fence]     # two extensions cooperating on one construct
+    if 'codehilite' in exts: out.append(p_code)
+    if 'footnotes' in exts: out.append(p_footnote_use)
+    if 'abbr' in exts: out.append(p_abbr)
+    if 'toc' in exts: out += [p_heading, p_toc]
+    if 'attr_list' in exts: out.append(p_para)
+    if 'tables' in exts: out.append(p_table)
+    if 'md_in_html' in exts: out += [p_rawhtml, p_mdhtml_container]
+    if 'meta' in exts: out.append(p_meta)
+    if 'admonition' in exts: out.append(p_admonition)
+    if 'def_list' in exts: out.append(p_deflist)
+    return out
+
+
 def document(rng, lo=1, hi=6, meta=True, counters=None):
     """A document of lo..hi pieces.  `counters` (dict) gets the piece kinds used."""
     parts = []
@@ -267,13 +294,15 @@ def ext_opts(rng, name):
     if name == 'footnotes': return footnotes_opts(rng)
     o = {}
     if name == 'abbr':
-        if rng.random() < 0.3: o['glossary'] = {rng.choice(ABBRS): 'Glossary ' + rng.choice(WORDS)}
+        if rng.random() < 0.45: o['glossary'] = {a: 'Glossary ' + rng.choice(WORDS) for a in rng.sample(ABBRS, rng.choice([1, 2, 4]))}
     elif name == 'codehilite':
         if rng.random() < 0.3: o['use_pygments'] = rng.choice([False, True])
         if rng.random() < 0.2: o['css_class'] = rng.choice(['hl', 'codehilite'])
         if rng.random() < 0.2: o['lang_prefix'] = rng.choice(['lang-', ''])
         if rng.random() < 0.2: o['linenums'] = rng.choice([True, False, None])
         if rng.random() < 0.2: o['guess_lang'] = rng.choice([True, False])
+        if rng.random() < 0.3:      # inline styles: the style chosen shows in the output of every highlighted block
+            o['noclasses'] = True; o['pygments_style'] = rng.choice(['native', 'monokai', 'default', 'native'])
     elif name == 'fenced_code':
         if rng.random() < 0.3: o['lang_prefix'] = rng.choice(['lang-', '', 'language-'])
     elif name == 'smarty':
